@@ -12,4 +12,14 @@ structure DetFact where
   detail : String
   deriving DecidableEq, Repr
 
+/-- A keeper (or app-level handler) struct field that can hold mutable in-memory data, with the
+functions other than constructors that mutate it. -/
+structure KeeperField where
+  pkg : String
+  type : String
+  field : String
+  kind : String          -- map | slice | chan
+  mutatedIn : List String
+  deriving DecidableEq, Repr
+
 end PvProofs.Facts
